@@ -7,12 +7,9 @@ Floats are the symbolic `Go.FExpr` (operands and operations exactly as in the so
 the same tree with hardware float32 and compares bit for bit with the real `_hybridScore` (`hyb` op lines).
 -/
 import SemaModel.C04.Lemmas
-import SemaModel.Generated.Hybrid
+import SemaModel.C04.HybridGen
 namespace Sema.C04
 open Sema Sema.Go Sema.Gen List
-
-/-- the hybrid score `IndexFlat.Search` reports for a distance `d` and the optional query weight `w` -/
-def hybridGen (w : Option FExpr) (d : FExpr) : FExpr := Hybrid.flat_hybrid (Hybrid.flat_weight ⟨w⟩) d
 
 /-- the weight default: `var weight float32 = 1; if options.Weight != nil { weight = *options.Weight }` -/
 theorem C04_weight_default (w : Option FExpr) : Hybrid.flat_weight ⟨w⟩ = w.getD (FExpr.lit 1) := by
